@@ -205,7 +205,7 @@ def main() -> int:
         if (twice / "src" / "main.cpp").read_text() != "// second\n":
             rep.violation("second write_project into the same directory left the previous src/main.cpp in place", key="stale-main")
         # ... also when the new source happens to have exactly the size of the old one
-        for txt in ("// other\n", "// X\u00e9cond\n", "//  third\n"):
+        for txt in ("// secanD\n", "// s\u00e9cnD\n", "// s\u00e8cnD\n", "// other\n"):   # 10, 10 (2-byte char), 10, 9 bytes after "// second\n" (10)
             pio.write_project(twice, txt, "COM3", platform="atmelavr", board="uno", lib_deps=["Servo"])
             rep.count("same_dir_rewrites")
             if (twice / "src" / "main.cpp").read_text(encoding="utf-8") != txt:
